@@ -122,7 +122,22 @@ def ieval(e, subst):
     raise NoEval(render(e))
 
 
+_COUNTER_ALIASES = set()
+
+
+def set_counter_aliases(fn):
+    """reference locals bound to a MemoryInfo::counter (auto & c = it->second.counter)"""
+    _COUNTER_ALIASES.clear()
+    for n in fn.nodes():
+        if n.get("k") == "Var" and n.get("ref") and n.get("init") is not None:
+            i = L.unwrap(n["init"])
+            if i.get("k") == "Member" and i.get("qn", "").endswith("MemoryInfo::counter"):
+                _COUNTER_ALIASES.add(n["d"])
+
+
 def is_counter(n):
+    if n.get("k") == "Ref" and n.get("d") in _COUNTER_ALIASES:
+        return True
     return n.get("k") == "Member" and n.get("qn", "").endswith("MemoryInfo::counter")
 
 
@@ -157,7 +172,18 @@ def counter_mods(n):
 
 
 def frees(n):
-    return [x for x in walk(n) if x.get("k") == "Call" and x.get("callee") in ("free", "::free", "FEAT::Util::cuda_free")]
+    return [x for x in walk(n) if x.get("k") == "Call" and re.search(r"(^|::)(free|cuda_free)$", str(x.get("callee", "")))]
+
+
+def opaque_calls(n, names):
+    """calls (other than free / erase / stream output) that receive one of the named variables: they may do the work"""
+    out = []
+    for x in walk(n or {}):
+        if is_call(x) and x not in frees(n) and not (x.get("k") == "MCall" and x.get("n") in ("erase", "find", "end", "begin", "size", "empty")) \
+                and not (x.get("k") == "OpCall") and x.get("callee") not in ("FEAT::assertion",) and not str(x.get("callee", "")).startswith("std::"):
+            if any(y.get("k") == "Ref" and y.get("n") in names for a in (x.get("a") or []) for y in walk(a)):
+                out.append(x)
+    return out
 
 
 def erases(n):
@@ -187,8 +213,89 @@ def found_branch(fn, itd):
                 txt = [render(L.unwrap(x)) for x in ops]
                 ds = [L.unwrap(x).get("d") for x in ops]
                 if itd in ds and any(t.endswith("_pool.end()") for t in txt):
-                    return n.get("then") if c["op"] == "!=" else n.get("else")
+                    br = n.get("then") if c["op"] != "==" else n.get("else")
+                    if br is not None:
+                        return br
+                    # `if(it == end) abort/return;` followed by the work on the found entry: the rest of the enclosing block
+                    miss = n.get("then") if c["op"] == "==" else n.get("else")
+                    leaves = miss is not None and any((is_call(x) and x.get("noreturn")) or x.get("k") in ("Return", "Throw") for x in walk(miss))
+                    if leaves:
+                        for blk in fn.nodes():
+                            if blk.get("k") == "Block" and any(x is n for x in blk.get("s", [])):
+                                i = [x is n for x in blk["s"]].index(True)
+                                return {"k": "Block", "s": blk["s"][i + 1:], "l": n.get("l")}
     return None
+
+
+def null_outcome(fn, param):
+    """what the function does when <param> is nullptr: 'noop' (reaches a normal exit without touching the pool),
+    'abort' (assertion / abort on that path), 'effects', or 'unknown' (a condition the check cannot evaluate)"""
+    def nulltest(c):
+        """truth value of c when param == nullptr, None if c does not depend on param only"""
+        c = L.unwrap(c)
+        k = c.get("k")
+        if k == "Ref" and c.get("n") == param:
+            return False
+        if k == "Un" and c.get("op") == "!":
+            v = nulltest(c["e"])
+            return None if v is None else (not v)
+        if k == "Bin" and c.get("op") in ("==", "!="):
+            a, b = L.unwrap(c["lhs"]), L.unwrap(c["rhs"])
+            for x, y in ((a, b), (b, a)):
+                if x.get("k") == "Ref" and x.get("n") == param and (y.get("k") == "Null" or (y.get("k") == "Int" and y.get("v") == "0")):
+                    return c["op"] == "=="
+            return None
+        if k == "Bin" and c.get("op") in ("&&", "||"):
+            a, b = nulltest(c["lhs"]), nulltest(c["rhs"])
+            if c["op"] == "&&":
+                return False if (a is False or b is False) else (True if a and b else None)
+            return True if (a is True or b is True) else (False if a is False and b is False else None)
+        return None
+
+    def run(n):
+        """-> outcome or None (fell through)"""
+        if n is None:
+            return None
+        k = n.get("k")
+        if k == "Block":
+            for s_ in n.get("s", []):
+                r = run(s_)
+                if r is not None:
+                    return r
+            return None
+        if k == "If":
+            v = nulltest(n["c"])
+            if v is None:
+                a, b = run(n.get("then")), run(n.get("else")) if n.get("else") is not None else None
+                if a == b:
+                    return a
+                if counter_mods(n) or frees(n) or erases(n) or any(is_call(x) and x.get("noreturn") for x in walk(n)) or any(x.get("k") == "Return" for x in walk(n)):
+                    return "unknown"
+                return None
+            return run(n["then"]) if v else (run(n["else"]) if n.get("else") is not None else None)
+        if k == "Return":
+            return "noop"
+        if is_call(n) and n.get("callee") == "FEAT::assertion" and n.get("a"):
+            v = nulltest(n["a"][0])
+            if v is False:
+                return "abort"
+            return None
+        if is_call(n) and n.get("noreturn"):
+            return "abort"
+        if k in ("For", "While", "Do", "ForRange", "Switch", "Try"):
+            return "unknown"
+        if counter_mods(n) or frees(n) or erases(n):
+            return "effects"
+        for x in walk(n):
+            if is_call(x) and x.get("noreturn"):
+                return "abort"
+            if is_call(x) and x.get("k") == "MCall" and x.get("n") == "find":
+                continue
+        return None
+    r = run(fn.body)
+    # after a failed lookup of nullptr the functions abort ("address not found"): falling off the lookup means effects on a found entry,
+    # which cannot happen for nullptr; a plain fall-through of the whole body is a no-op
+    return "noop" if r is None else r
 
 
 def null_early_out(fn, param):
@@ -229,12 +336,13 @@ def pool_rules(ck, facts, runtime_facts):
 
     # ---- release_memory
     for fn in one("release_memory")[:1]:
+        set_counter_aliases(fn)
         p = fn.params[0]["n"] if fn.params else "address"
         itd = lookup_of(fn, p)
         fb = found_branch(fn, itd) if itd is not None else None
-        ck.ob("C20.pool-release", "MemoryPool::release_memory/lookup", fb is not None,
-              "reference count is looked up by _pool.find(%s) and used only when found" % p if fb is not None else
-              "no `it = _pool.find(%s)` + `if(it != _pool.end())` structure found" % p, fn.file, fn.line)
+        if fb is not None:
+            ck.ob("C20.pool-release", "MemoryPool::release_memory/lookup", True,
+                  "reference count is looked up by _pool.find(%s) and used only when found" % p, fn.file, fn.line)
         if fb is None:
             ck.incomplete("C20.pool-release", "MemoryPool::release_memory: lookup structure not recognised")
         else:
@@ -249,13 +357,34 @@ def pool_rules(ck, facts, runtime_facts):
                     tt = None
                     ck.incomplete("C20.pool-release", "counter condition %s not evaluable (%s)" % (render(n["c"]), e))
                 if tt is not None:
+                    def rest_after(ifn, taken):
+                        """statements executed after `taken` left the function: the siblings following the if"""
+                        leaves = taken is not None and any(x.get("k") in ("Return", "Throw") or (is_call(x) and x.get("noreturn")) for x in walk(taken))
+                        if not leaves:
+                            return None
+                        for blk in [fb] + [x for x in walk(fb) if x.get("k") == "Block"]:
+                            if blk.get("k") == "Block" and any(x is ifn for x in blk.get("s", [])):
+                                i = [x is ifn for x in blk["s"]].index(True)
+                                return {"k": "Block", "s": blk["s"][i + 1:], "l": ifn.get("l")}
+                        return None
                     last, more = (n.get("then"), n.get("else")) if tt[0] else (n.get("else"), n.get("then"))
+                    if last is None:
+                        last = rest_after(n, more)
+                    if more is None:
+                        more = rest_after(n, last)
+                    if last is None or more is None:
+                        ck.incomplete("C20.pool-release", "MemoryPool::release_memory: the two sides of the counter test (%s) are not both recognisable" % render(n["c"]))
+                        continue
                     ok = tt in ([True, False, False, False], [False, True, True, True])
                     ck.ob("C20.pool-release", "MemoryPool::release_memory/last-reference-test", ok,
                           "the branch condition %s is %s for counter = 1,2,3,7; it must single out counter == 1 (the last reference)" % (render(n["c"]), tt),
                           fn.file, n.get("l"))
                     fr = frees(last) if last is not None else []
                     er = erases(last) if last is not None else []
+                    opq = opaque_calls(last, {p, "it"}) + opaque_calls(more, {p, "it"})
+                    if opq and (len(fr) != 1 or len(er) != 1 or len(counter_mods(more or {})) != 1):
+                        ck.incomplete("C20.pool-release", "MemoryPool::release_memory hands %s / the map iterator to %s, which the check does not model" % (p, opq[0].get("callee")))
+                        continue
                     ok_free = len(fr) == 1 and L.unwrap(fr[0]["a"][0]).get("n") == p and len(er) == 1 and not counter_mods(last or {})
                     ck.ob("C20.pool-release", "MemoryPool::release_memory/free-and-erase", ok_free,
                           "last-reference branch: %d free(%s) calls, %d _pool.erase calls, %d counter updates (expected 1,1,0)" % (len(fr), p, len(er), len(counter_mods(last or {}))),
@@ -272,10 +401,14 @@ def pool_rules(ck, facts, runtime_facts):
 
     # ---- increase_memory
     for fn in one("increase_memory")[:1]:
+        set_counter_aliases(fn)
         p = fn.params[0]["n"] if fn.params else "address"
         itd = lookup_of(fn, p)
         fb = found_branch(fn, itd) if itd is not None else None
         cm = counter_mods(fn.body)
+        if fb is None or (not cm and opaque_calls(fn.body, {p, "it"})):
+            ck.incomplete("C20.pool-increase", "MemoryPool::increase_memory: lookup / counter update not recognised (%s)" % ("no `it = _pool.find(%s)` structure" % p if fb is None else "the work is done by %s" % opaque_calls(fn.body, {p, "it"})[0].get("callee")))
+            continue
         ok = fb is not None and len(cm) == 1 and cm[0][0] == 1 and any(cm[0][1] is x for x in walk(fb))
         ck.ob("C20.pool-increase", "MemoryPool::increase_memory/increment", ok,
               "counter updates %s (expected exactly one +1, on the entry found by _pool.find(%s))" % ([c[0] for c in cm], p), fn.file, fn.line)
@@ -293,6 +426,9 @@ def pool_rules(ck, facts, runtime_facts):
             ck.incomplete("C20.pool-allocate", "%s: expected one _pool.insert and a CFG" % fn.full)
             continue
         insn = ins[0]
+        if not one_init:
+            ck.incomplete("C20.pool-allocate", "%s: no `info.counter = <n>` assignment found (aggregate / constructor initialisation of MemoryInfo is not modelled)" % fn.full)
+            continue
         # the inserted pair: (returned pointer, info with counter 1)
         pa = [L.unwrap(x) for x in (L.unwrap(insn["a"][0]).get("a") or [])]
         retvars = {L.unwrap(r["e"]).get("d") for r in rets}
@@ -323,7 +459,11 @@ def pool_rules(ck, facts, runtime_facts):
     if rel_fn is not None and inc_fn is not None:
         for fn, what in ((rel_fn, "release_memory"), (inc_fn, "increase_memory")):
             p = fn.params[0]["n"] if fn.params else "address"
-            tolerant = null_early_out(fn, p)
+            outcome = null_outcome(fn, p)
+            if outcome in ("unknown", "effects") and may_return_null:
+                ck.incomplete("C20.pool-null-consistency", "MemoryPool::%s: behaviour for a nullptr argument not derivable (%s)" % (what, outcome))
+                continue
+            tolerant = outcome == "noop"
             a = asserts_nonnull(fn, p)
             ok = tolerant or not may_return_null
             det = "allocate_memory returns nullptr for count == 0 (%s); %s(nullptr) %s" % (
@@ -356,6 +496,11 @@ def pool_rules(ck, facts, runtime_facts):
             if tt is not None:
                 br = n.get("then") if tt[1] else n.get("else")
                 stops = [x for x in walk(br or {}) if (is_call(x) and (x.get("noreturn") or x.get("callee") in ("exit", "std::exit", "abort", "std::abort", "FEAT::abortion"))) or x.get("k") == "Throw"]
+                others = [x for x in walk(br or {}) if is_call(x) and x.get("k") in ("Call", "MCall") and not str(x.get("callee", "")).startswith("std::")
+                          and not (x.get("k") == "MCall" and render(x.get("obj")).endswith("_pool"))]
+                if not stops and others and tt in ([False, True, True, True], [True, False, False, False]):
+                    ck.incomplete("C20.pool-finalize", "MemoryPool::finalize: the non-empty branch calls %s, which is not known to terminate" % others[0].get("callee"))
+                    continue
                 ok = tt in ([False, True, True, True], [True, False, False, False]) and bool(stops)
                 ck.ob("C20.pool-finalize", "MemoryPool::finalize/non-empty-pool-is-an-error", ok,
                       "condition %s is %s for pool sizes 0,1,2,9; the non-empty side has %d terminating calls (exit/abort)" % (render(n["c"]), tt, len(stops)), fn.file, n.get("l"))
@@ -407,6 +552,8 @@ def container_rules(ck, fam, prefix="C20."):
     nfun = 0
     seen_fail = set()
     for fn in fam.functions():
+        if L.is_inlined_helper(fam, fn):
+            continue
         cases = L.interpret_cases(fam, fn, summaries)
         if not any(it.touched or it.unknown for _, it in cases):
             continue
